@@ -109,11 +109,11 @@ def run(ctx, chk):
             chk.check(R2, d["cls"] in ("enum", "mask") and d["ty"] == rty and d["via"] == exp and not d["problems"], "Decoder::" + m,
                       "returns %s, decodes via %s::%s; %s" % (rty, d["ty"], d["via"], "; ".join(d["problems"]) or d["cls"]), w,
                       sample={"ty": rty, "via": d["via"], "err": d["err"]})
-    for m in ("id", "bit32", "ext_inst_integer"):
-        chk.check(R2, m in dm and dm[m]["cls"] == "word", "Decoder::" + m, "%s is not a plain self.word()" % m, raw.where(m, "Decoder"))
-    b64 = dm.get("bit64")
-    chk.check(R2, b64 is not None and bit64_low_first(b64["fn"]), "Decoder::bit64",
-              "bit64 does not combine (second word << 32) | first word", raw.where("bit64", "Decoder"))
+    from . import stringx
+    for m in ("id", "bit32", "ext_inst_integer", "bit64"):
+        pb = stringx.hand_problem(ctx, m) if m in dm else "Decoder::%s not found" % m
+        chk.check(R2, pb is None, "Decoder::" + m, "%s is not %s: %s" % (m, "(second word << 32) | first word" if m == "bit64" else "one word()", pb),
+                  raw.where(m, "Decoder") if m in dm else None)
     chk.floor(R2, "typed decoder methods", nt, 56)
 
     R3 = chk.rule("R-CODEC-3", "Assemble for Operand has one arm per Operand variant (no wildcard), each in one of the encodings "
